@@ -91,6 +91,11 @@ def gen_case(rng, tier):
     case["version"] = rng.choice(["", "", ".2"])
     case["io_buf"] = rng.choice([16, 64, 8192, 8192])
     case["subset_seed"] = rng.getrandbits(32)
+    # (a quiet run logs nothing before the files are opened.  Not CRITICAL: the tool
+    # reports an output collision with logging.error, so a user who asks for CRITICAL
+    # only has asked not to be told - --log-level is not among the configurations
+    # the property quantifies over, see DESIGN.md 10.3)
+    case["log_level"] = rng.choice([None, None, None, "DEBUG", "WARNING", "ERROR", "ERROR"])
     return case
 
 
@@ -139,6 +144,8 @@ class Runner:
             a.append("--no-clobber")
         elif mode != "default":
             a.append(mode)
+        if self.case.get("log_level"):
+            a += ["--log-level", self.case["log_level"]]
         return a
 
     def run_cli(self, mode, fault=None, prelude=None, keep=None, write_log=None):
@@ -483,6 +490,13 @@ class Runner:
                     self.check_clobber(S, kinds, C, mode)
                 return "ok"
             rng = random.Random(self.case["subset_seed"])
+            logname = os.path.basename(str(Path(self.outfile).with_suffix(".log")))
+            if self.case["write_log"] and logname not in W:
+                # --write-log makes <output>.log an output file of the run whether or not
+                # this run got as far as writing to it: a log that is already there must
+                # be refused all the same
+                w.probe("log_requested_but_not_written_by_the_clean_run")
+                self.check_noclobber([logname], {logname: "short"}, dict(C, **{logname: b""}))
             self.check_after_run(list(W), C)
             self.check_after_run(list(W), C, flip_log=True)
             if len(W) > 1:
